@@ -6,6 +6,7 @@ func init() {
 	vpRegister("VPH_C04_replies", VPH_C04_replies)
 	vpRegister("VPH_C04_setattr_then_use", VPH_C04_setattr_then_use)
 	vpRegister("VPH_C04_new_objects", VPH_C04_new_objects)
+	vpRegister("VPH_C04_mutate_then_observe", VPH_C04_mutate_then_observe)
 }
 
 func vpFtype(kind uint8) uint32 {
@@ -264,4 +265,117 @@ func VPH_C04_new_objects() {
 		vpAttrAgrees(fs, "/d", da, "parent-after-create")
 	}
 	vpAssert(rd.done(), "reply-shape")
+}
+
+// VPH_C04_mutate_then_observe: a request that changes an object (its size, its mode, or the object
+// itself: the name removed and made again as a directory or a symlink) on a server whose caches
+// and handle table already know the old object, followed by any attribute-carrying request for the
+// same name: what is reported afterwards is the object as the backend has it now.
+func VPH_C04_mutate_then_observe() {
+	fs := vpAttrTree()
+	env := vpServer(fs, ExportOptions{EnableDirCache: vpBool("dircache")})
+	hd := env.handleFor("/d")
+	h := env.handleFor("/d/f") // also warms the attribute cache for /d/f
+	if vpBool("listing-warm") {
+		var w vpBuf
+		env.call(NFSPROC3_READDIRPLUS, w.fh(hd).u64(0).raw(make([]byte, 8)).u32(8192).u32(32768).Bytes())
+	}
+	ok := func(r *RPCReply) *vpRd {
+		rd := &vpRd{b: vpReplyBytes(r)}
+		vpAssume(rd.u32() == NFS_OK)
+		return rd
+	}
+	issued := func(rd *vpRd) uint64 { // handle in a CREATE / MKDIR / SYMLINK result
+		vpAssert(rd.u32() == 1, "handle-follows")
+		return (&vpRd{b: rd.opaque()}).u64()
+	}
+	var b vpBuf
+	switch vpChoose("mutation", 0, 5) {
+	case 0:
+		vpReach("write")
+		off := uint64(vpChoose("woff", 0, 3))
+		vpAssume(fs.nodes["/d/f"].size <= 2) // so that the write really extends the file on some paths
+		ok(env.call(NFSPROC3_WRITE, b.fh(h).u64(off).u32(2).u32(2).opaque([]byte{1, 2}).Bytes()))
+	case 1:
+		vpReach("setattr-size")
+		sz := vpU64("newsize")
+		vpAssume(sz < 1<<40)
+		ok(env.call(NFSPROC3_SETATTR, b.fh(h).sattr(&vpSattr{setSize: true, size: sz}).u32(0).Bytes()))
+	case 2:
+		vpReach("setattr-mode")
+		ok(env.call(NFSPROC3_SETATTR, b.fh(h).sattr(&vpSattr{setMode: true, mode: vpU32("newmode") & 0777}).u32(0).Bytes()))
+	case 3:
+		vpReach("create-unchecked-with-size")
+		sz := vpU64("createsize")
+		vpAssume(sz < 1<<40)
+		rd := ok(env.call(NFSPROC3_CREATE, b.fh(hd).str("f").u32(0).sattr(&vpSattr{setSize: true, size: sz}).Bytes()))
+		h = issued(rd)
+	case 4:
+		vpReach("replaced-by-directory")
+		ok(env.call(NFSPROC3_REMOVE, b.fh(hd).str("f").Bytes()))
+		var m vpBuf
+		h = issued(ok(env.call(NFSPROC3_MKDIR, m.fh(hd).str("f").sattr(&vpSattr{}).Bytes())))
+	case 5:
+		vpReach("replaced-by-symlink")
+		ok(env.call(NFSPROC3_REMOVE, b.fh(hd).str("f").Bytes()))
+		var m vpBuf
+		h = issued(ok(env.call(NFSPROC3_SYMLINK, m.fh(hd).str("f").sattr(&vpSattr{}).str("s").Bytes())))
+	}
+	var o vpBuf
+	switch vpChoose("observe", 0, 4) {
+	case 0:
+		rd := &vpRd{b: vpReplyBytes(env.call(NFSPROC3_GETATTR, o.fh(h).Bytes()))}
+		vpAssert(rd.u32() == NFS_OK, "getattr-after-ok")
+		vpAttrAgrees(fs, "/d/f", rd.fattr(), "getattr-after")
+	case 1:
+		rd := &vpRd{b: vpReplyBytes(env.call(NFSPROC3_LOOKUP, o.fh(hd).str("f").Bytes()))}
+		vpAssert(rd.u32() == NFS_OK, "lookup-after-ok")
+		rd.opaque()
+		a, follows := rd.postOp()
+		vpAssert(follows, "lookup-after-attributes-follow")
+		vpAttrAgrees(fs, "/d/f", a, "lookup-after")
+	case 2:
+		rd := &vpRd{b: vpReplyBytes(env.call(NFSPROC3_ACCESS, o.fh(h).u32(0x3f).Bytes()))}
+		vpAssert(rd.u32() == NFS_OK, "access-after-ok")
+		a, follows := rd.postOp()
+		vpAssert(follows, "access-after-attributes-follow")
+		vpAttrAgrees(fs, "/d/f", a, "access-after")
+	case 3:
+		rd := &vpRd{b: vpReplyBytes(env.call(NFSPROC3_READDIRPLUS, o.fh(hd).u64(0).raw(make([]byte, 8)).u32(8192).u32(32768).Bytes()))}
+		vpAssert(rd.u32() == NFS_OK, "readdirplus-after-ok")
+		rd.postOp()
+		rd.u64()
+		seen := false
+		for rd.u32() == 1 {
+			rd.u64()
+			name := string(rd.opaque())
+			rd.u64()
+			a, follows := rd.postOp()
+			if rd.u32() == 1 {
+				rd.opaque()
+			}
+			if rd.bad {
+				break
+			}
+			if name == "f" {
+				seen = true
+				if follows {
+					vpAttrAgrees(fs, "/d/f", a, "readdirplus-after")
+				}
+			}
+		}
+		vpAssert(seen, "readdirplus-after-lists-the-name")
+	case 4:
+		// a request that takes the object's type from the handle's node: LOOKUP inside it
+		rd := &vpRd{b: vpReplyBytes(env.call(NFSPROC3_LOOKUP, o.fh(h).str("zz").Bytes()))}
+		st := rd.u32()
+		if fs.nodes["/d/f"].kind == vpKDir {
+			vpAssert(st == NFSERR_NOENT, "new-directory-is-a-directory-for-lookup")
+			if a, follows := rd.postOp(); follows {
+				vpAttrAgrees(fs, "/d/f", a, "lookup-dir-attributes-after")
+			}
+		} else {
+			vpAssert(st == NFSERR_NOTDIR, "non-directory-is-not-a-directory-for-lookup")
+		}
+	}
 }
